@@ -2,7 +2,7 @@
    Independent of const_*.py / Gen/Tables.v.  Where the property text leaves a choice the
    spec takes the code's side and says so (DESIGN C03). *)
 From Coq Require Import List NArith ZArith QArith Bool String.
-From PMS Require Import Base.PyStr Base.PyInt Model.Rules.
+From PMS Require Import Base.PyStr Base.PyInt Base.Version Model.Rules.
 Import ListNotations.
 Open Scope Z_scope.
 
@@ -39,7 +39,10 @@ Inductive pclass :=
 | FloatRange (lo hi : Z)                   (* float() spelling, lo <= binary64 value <= hi, NaN rejected *)
 | Rgb | Rgbw                               (* exactly 6 / 8 hex digits *)
 | Gps                                      (* lat,lon,alt: three float() spellings *)
-| Version14.                               (* a version >= 1.4 (awesomeversion's verdict: oracle) *)
+| Version14.                               (* a version >= 1.4: the verdict orc_version of is_version; for the
+                                              machine's verdict (Model/Oracles.v) that is the numeric rule
+                                              version_rule below on dotted numeric payloads, awesomeversion's
+                                              own verdict (oracle table) on all other strings *)
 
 Definition w (s : string) : pstr := s2p s.
 Definition binary : pclass := Words [w "0"; w "1"].
@@ -130,3 +133,23 @@ Section Spec.
     between 0 255 n && spec_child_ok t s c && between 0 4 t && one_of a [0; 1] &&
     between 0 (max_sub v t) s && in_class (spec_class v t s) p.
 End Spec.
+
+(* "A version >= 1.4", numerically: on a dotted numeric payload  [0-9]+(\.[0-9]+)*  compare the
+   section values with 1.4 left to right, a missing section counting as 0 (leading zeros are
+   irrelevant: num_ge, sections of Base/Version.v - stated without awesomeversion's algorithm);
+   `other` decides every string that is not dotted numeric. *)
+Definition version_rule (other : pstr -> bool) (p : pstr) : bool :=
+  if dotted_numeric p then num_ge (sections p) [1%N; 4%N] else other p.
+
+(* the section values of the five supported protocol versions *)
+Definition ver_sections (v : ver) : list N :=
+  match v with V14 => [1; 4] | V15 => [1; 5] | V20 => [2; 0] | V21 => [2; 1] | V22 => [2; 2] end%N.
+
+(* the greatest supported protocol version that is not numerically above the section list l
+   (1.4 when there is none): the version a node that reported l is served with *)
+Definition floor_ver (l : list N) : ver :=
+  if num_ge l [2%N; 2%N] then V22
+  else if num_ge l [2%N; 1%N] then V21
+  else if num_ge l [2%N; 0%N] then V20
+  else if num_ge l [1%N; 5%N] then V15
+  else V14.
